@@ -88,11 +88,11 @@ theorem done_line (tag text : Str) (ht : IsTag tag) (hx : IsText text) :
       simp
 
 /-- dispatch of the EXPUNGE response -/
-theorem dispatch_expunge (n : Nat) (r : Str) : dispatchData n (asc "EXPUNGE") r = some (Event.expunge n, r) := by
-  simp [dispatchData, asc]
+theorem dispatch_expunge (n : Nat) (h0 : n ≠ 0) (r : Str) : dispatchData n (asc "EXPUNGE") r = some (Event.expunge n, r) := by
+  simp [dispatchData, asc, h0]
 
 /-- `* n EXPUNGE CRLF` (expunge.go writeExpunge) is read as the expunge event of `n` -/
-theorem expunge_line (n : Nat) (hn : n < 4294967296) :
+theorem expunge_line (n : Nat) (h0 : n ≠ 0) (hn : n < 4294967296) :
     ReadsAs (star ++ [32] ++ encNumber n ++ asc " EXPUNGE\r\n") (Event.expunge n) := by
   constructor
   · simp [star]
@@ -110,6 +110,6 @@ theorem expunge_line (n : Nat) (hn : n < 4294967296) :
       have e2 : a :: (l ++ 32 :: (asc "EXPUNGE" ++ 13 :: 10 :: rest)) = encNumber n ++ 32 :: (asc "EXPUNGE" ++ 13 :: 10 :: rest) := by
         rw [hd]; rfl
       rw [e2, readUntagged_num n hn (asc "EXPUNGE") (13 :: 10 :: rest) (isName_of _ (by decide)) (StopsAt.cons _ (by decide)),
-        dispatch_expunge, finishLine_crlf]
+        dispatch_expunge n h0, finishLine_crlf]
 
 end GoImap.Resp
